@@ -43,7 +43,7 @@ deriving Repr, DecidableEq, Inhabited
 
 /-- the exceptions the parser can raise -/
 inductive Err where
-  | stopIteration | indexError | valueError | attributeError | keyError | assertionError
+  | stopIteration | indexError | valueError | attributeError | keyError | assertionError | typeError
 deriving Repr, DecidableEq, Inhabited
 
 abbrev R := Except Err
@@ -196,6 +196,9 @@ def getCells (faceLines bodyLines : List (List Tok)) : R (List (Tok × List Int 
   let pd ← getPressures bodyLines
   let s ← parseFaces faceLines
   if s.ids.length != s.edges.length then throw .valueError
+  -- pandas: a column of n values assigned to a frame whose columns are all empty creates n rows of NaN;
+  -- create_lattice then fails on `for e in r.edges` with TypeError
+  if s.ids.isEmpty && !pd.isEmpty then throw .typeError
   if pd.length != s.ids.length then throw .valueError
   pure (List.zip s.ids (List.zip s.edges (pd.map (·.2))))
 
